@@ -83,8 +83,15 @@ Theorem C05_wspb_status_unguarded_refuted : forall skip_group,
 Proof. exact wspb_status_unguarded_refuted. Qed.
 Print Assumptions C05_wspb_status_unguarded_refuted.
 
+(* jsonSubProto before the repair of the service method member (%q): "/test" + 0x00 *)
+Theorem C05_wsjson_method_prefix_refuted : forall quote_hi gjson_other,
+  exists m b size, json_ok m = true /\ wsj_pack_prefix quote_hi jesc_byte 1000 [] m = Ok (b, size) /\
+                   wsj_unpack gjson_other [] 1000 b <> Ok (m, [], size).
+Proof. exact wsj_method_prefix_refuted. Qed.
+Print Assumptions C05_wsjson_method_prefix_refuted.
+
 Example C05_wsjson_example :
-  let m := mkMsg 7 x01 (str "/a") (mkStatus 500 (str "x") None) [(str "k", [dqt; bsl])] x6a [bsl; x0a; dqt] in
+  let m := mkMsg 7 x01 [ "/"%byte; x00; x0b; x7f; xff; dqt; bsl ] (mkStatus 500 (str "x") None) [(str "k", [dqt; bsl])] x6a [bsl; x0a; dqt] in
   json_ok m = true /\ exists b size, wsj_pack (fun b => b) jesc_byte 1000 [] m = Ok (b, size).
 Proof.
   intros m. split; [vm_compute; reflexivity|].
